@@ -78,7 +78,7 @@ func ownFieldID(c *Ctx, k ssa.Value, seg ssa.Value, depth int) bool {
 	if !ok || bin.Op != token.SUB {
 		return false
 	}
-	src := bin.X
+	src := stripConv(bin.X) // int(s.fieldsMap[name]) - 1
 	// commaok lookup: extract #0
 	if ex, isEx := src.(*ssa.Extract); isEx {
 		src = ex.Tuple
